@@ -259,16 +259,33 @@ func (o *renderOpts) eol(sb *strings.Builder) {
 }
 
 func (o *renderOpts) items(sb *strings.Builder, items []item) {
-	for _, it := range items {
+	skipLabels := false
+	for k, it := range items {
 		o.filler(sb)
+		// layout only: the labels of the next instruction stand on their own line ABOVE this metadata comment
+		if it.T == "meta" && o.rich && !o.plain && k+1 < len(items) && items[k+1].T == "ins" && len(items[k+1].Labels) > 0 && o.r.Intn(2) == 0 {
+			for _, l := range items[k+1].Labels {
+				sb.WriteString(o.name(l))
+				if o.r.Intn(3) == 0 {
+					sb.WriteString(":")
+				}
+				sb.WriteString("\n")
+			}
+			skipLabels = true
+		}
 		switch it.T {
 		case "ins":
 			if o.plain {
 				sb.WriteString("")
 			}
-			o.labels(sb, it.Labels)
-			if len(it.Labels) == 0 {
+			if skipLabels {
+				skipLabels = false
 				sb.WriteString(o.sp())
+			} else {
+				o.labels(sb, it.Labels)
+				if len(it.Labels) == 0 {
+					sb.WriteString(o.sp())
+				}
 			}
 			opc := o.caseOf(it.Op)
 			if it.Mod != "" {
